@@ -212,6 +212,7 @@ theorem specUp (start : Nat) :
           · rw [nd_setS3_ne _ _ _ _ hne]
           · rw [nd_setS3_ne _ _ _ _ hne]
           · rw [nd_setS3_ne _ _ _ _ hne]
+          · rw [nd_setS3_ne _ _ _ _ hne]
           · intro _; rw [nd_setS3_ne _ _ _ _ hne]
           · intro p hp
             have hpi : i ≠ p := by
@@ -298,6 +299,7 @@ theorem down_ok_step (b : Book) (i : Nat) (hI : InvDown b0 b) (hi : i < b0.size)
       · rw [nd_setPE_self _ _ _ his]
       · rw [nd_setPE_self _ _ _ his]
       · rw [nd_setPE_self _ _ _ his]
+      · rw [nd_setPE_self _ _ _ his]
       · intro h0; exact absurd (pathErrOf_root b i h0) hch
       · intro p hp
         have hp' : p ∈ parentIds (b0.nd i) := by simpa only [parentIds, hI.parents i] using hp
@@ -357,6 +359,7 @@ theorem specDown :
         simp only [peOk] at hok ⊢
         rw [nd_setPE_ne _ _ _ _ hne, ← hok]
         apply pathErrOf_congr
+        · rw [nd_setPE_ne _ _ _ _ hne]
         · rw [nd_setPE_ne _ _ _ _ hne]
         · rw [nd_setPE_ne _ _ _ _ hne]
         · rw [nd_setPE_ne _ _ _ _ hne]
